@@ -82,10 +82,15 @@ PROPERTIES = {
                        "in-bounds interpretation e of leaves) / post.noconst / id / invariant, for every child count.",
     },
     "C09": {
+        "harness_modules": ["contracts.c09"],
         "rt": ["rt.config:c09_purity", "rt.config:c09_configurator_cache"],
         "level": "other",
         "assumptions": S_ALL,
-        "explanation": "bounded stand-in only so far: deep snapshots around sequences of public calls, two-configurator cache scenario",
+        "explanation": "deductive (input-free) frame obligations: every feasible path of negate / assume / variable.assume / "
+                       "variable.evaluate / reduce / equation_bounds,is_tautology,is_contradiction / the connective constructors / "
+                       "to_short,to_json is executed symbolically and a heap snapshot shows that no pre-existing object, list or "
+                       "module-level container is written. bounded stand-ins: deep snapshots around sequences of public calls "
+                       "(all public methods incl. evaluate/to_ge_polyhedron/solve), two-configurator cache scenario",
     },
     "C10": {
         "rt": ["rt.logic:c10_validation"],
